@@ -375,7 +375,6 @@ func c19Run(in c19Input) (*c19Net, string) {
 		if err := w.Save(); err != nil {
 			panic(err)
 		}
-		w.Close()
 		i := i
 		srv, err := consensus.NewService(consensus.Config{
 			Logger:                c20Logger(),
@@ -424,7 +423,7 @@ func c19Run(in c19Input) (*c19Net, string) {
 		for _, nd := range net.nodes {
 			if net.r.chance(45) {
 				if err := nd.bc.PoolTx(tx); err != nil {
-					panic(fmt.Sprintf("valid transaction refused by the pool: %v", err))
+					panic(fmt.Sprintf("valid transaction refused by the pool: %v (tx %s magic %d fee %d/%d scripts %d)", err, tx.Hash().StringLE(), nd.bc.GetConfig().Magic, tx.SystemFee, tx.NetworkFee, len(tx.Scripts)))
 				}
 				holders++
 			}
